@@ -230,7 +230,7 @@ func WorkerMain(c *Check, tier string, seed uint64, shard, nshards, start int, j
 	go func() { // watchdog: logical resources (heap bytes, process CPU), not wall clock
 		var ms runtime.MemStats
 		for {
-			time.Sleep(25 * time.Millisecond)
+			time.Sleep(100 * time.Millisecond)
 			i := curCase.Load()
 			if i < 0 {
 				continue
